@@ -506,6 +506,11 @@ class Concatenator(Group):  # pylint: disable=too-many-public-methods
             del parent_attr[f"Property:{name}"]
 
         elif isinstance(entity, ConcatenatedObject):
+            # Children and property groups are loaded lazily: fetch them first
+            if not any(isinstance(child, Data) for child in entity.children):
+                entity._fetch_concatenated_children()  # pylint: disable=protected-access
+            _ = entity.property_groups
+
             # First remove the children
             entity.remove_children(entity.children.copy())
             object_ids = self.concatenated_object_ids
@@ -513,6 +518,13 @@ class Concatenator(Group):  # pylint: disable=too-many-public-methods
             if object_ids is not None:
                 object_ids.remove(as_str_if_uuid(entity.uid).encode())
                 self.concatenated_object_ids = object_ids
+
+            # Then the rows of the object itself
+            for label in ["surveys", "trace", "property_group_ids"]:
+                index = self.fetch_index(entity, label)
+                if index is not None:
+                    self.delete_index_data(KEY_MAP[label], index)
+                    self.save_attribute(label)
 
         elif isinstance(entity, ConcatenatedPropertyGroup):
             # Remove all data within the group
